@@ -2,6 +2,7 @@ mod common;
 mod c01;
 mod c02;
 mod c09;
+mod c06;
 
 fn main() {
     std::panic::set_hook(Box::new(|_| {}));
@@ -22,6 +23,8 @@ fn main() {
         "c09-replay" => c09::replay(rest),
         "c09-predicates" => c09::predicates(rest),
         "c09-record" => c09::record(rest),
+        "c06-replay" => c06::replay(rest),
+        "c06-record" => c06::record(rest),
         x => {
             eprintln!("unknown subcommand {}", x);
             std::process::exit(2);
